@@ -121,10 +121,18 @@ def prove_equal(
         return "inconclusive"
     for kind, env in cands:
         # the candidate must satisfy the assumptions in floats (definedness etc.)
-        try:
-            if not all(zeval(a, env) for a in assumes if not _has_aux(a)):
-                continue
-        except Exception:
+        ok_assumptions = True
+        for a in assumes:
+            try:
+                if not zeval(a, env):
+                    ok_assumptions = False
+                    break
+            except KeyError:
+                continue  # mentions cut / gate symbols that are functions of the inputs: decided by the replay itself
+            except Exception:
+                ok_assumptions = False
+                break
+        if not ok_assumptions:
             continue
         part.d["witnesses"] += 1
         differs, r = try_replay(replay, env)
